@@ -109,7 +109,7 @@ func VerifProcessReady(rd raft.Ready, stable []raftpb.Entry) []VerifReadyEvent {
 		node:           &verifRaftNode{tl: tl, cc: make(chan raftpb.ConfChange)},
 		ds:             verifDS{},
 		persistStorage: &verifPersist{tl},
-		raftStorage:    raft.NewMemoryStorage(),
+		raftStorage:    raft.NewRealMemoryStorage(),
 		transport:      &verifTransport{rafthttp.NewNopTransporter(), tl},
 		stopc:          stop,
 		newLeaderChan:  make(chan string, 8),
